@@ -5,8 +5,8 @@ projection of the implementation's trace, model input, scenario generators.
 Observation line (both sides):  OBS <n iterations> {#k@now|<events>|<questions>|<metrics>}
   events    = ch=ev,ev;ch=ev ...   per channel: stable sort by instance name
               F:<ty>:<inst>  X:<ty>:<inst>  R:<ty>:<sub|->:<inst>:<host>:<port>:<ip@if+..>:<k=v+k+..>
-  questions = set of <label.label...>:<qtype> over all query packets of the iteration, PTR-type
-              questions (browse query / PTR refresh) excluded
+  questions = set of <label.label...>:<qtype> over all query packets of the iteration, labels in
+              lower case (ASCII), PTR-type questions (browse query / PTR refresh) excluded
   metrics   = m<ch>=ptr.srv.txt.addr.nsec.subtype  (cache sizes reported by get_metrics)
 All byte strings in hex ('_' = empty).
 """
@@ -243,7 +243,9 @@ def project_line(case_line, raw_line):
                 continue
             for (ls, ty, _cl) in p["q"]:
                 if ty != 12:
-                    qs.add("%s:%d" % (".".join(hx(l) for l in ls) or "_", ty))
+                    # DNS names: ASCII case is not significant (two spellings of one host may be
+                    # asked in either spelling, depending on hash order)
+                    qs.add("%s:%d" % (".".join(hx(l.lower()) for l in ls) or "_", ty))
         if cparts or qs or mparts:
             toks.append("#%d@%d|%s|%s|%s" % (k, now, ";".join(cparts) or "-", ",".join(sorted(qs)) or "-",
                                              ",".join(mparts) or "-"))
@@ -459,7 +461,7 @@ def gen_lifecycle(rng, hid, special=None):
         ifidx = 3 if (two_if and rng.random() < 0.3) else 2
         if use_sub and i == 0:
             ty = SUB1           # advertised under the subtype PTR only (one PTR name per instance)
-        svcs.append(Svc(rng, labels_pool[i], ty, host, ifidx))
+        svcs.append(Svc(rng, labels_pool[i], ty, host, ifidx, mixed_case=rng.random() < 0.3))
     if rng.random() < 0.5:
         for s in svcs:      # short-lived world: everything expires within seconds
             s.ttl_ptr = rng.choice([10, 5, 4500]); s.ttl_srv = rng.choice(TTLS_SHORT); s.ttl_a = rng.choice(TTLS_SHORT)
@@ -584,10 +586,12 @@ def gen_special(rng, hid, which):
             sc.deliver(s.recs("STA"), 2)
         return sc.finish(3000)
     if which == "case":
+        # SRV target and address owner spelled with different letter case (repaired D21: must
+        # resolve when the address arrives alone, and be removed when the last address goes)
         s = Svc(rng, rng.choice(INST_LABELS), TY1, rng.choice(HOSTS), 2, mixed_case=True)
         s.ttl_a = rng.choice([3, 5, 120]); s.ttl_srv = rng.choice([10, 120]); s.ttl_ptr = 4500
         sc.advance(100)
-        mode = rng.choice(["sep", "together", "verify"])
+        mode = rng.choice(["sep", "together", "verify", "addr-bye"])
         if mode == "sep":
             sc.deliver(s.recs("PST"), 2)
             sc.advance(rng.choice([0, 200, 700]))
@@ -597,14 +601,30 @@ def gen_special(rng, hid, which):
         if mode == "verify":
             sc.advance(1000)
             sc.pending_calls.append(sc.h.verify(dotted(s.inst).decode(), rng.choice([1500, 3000])))
+            if rng.random() < 0.5:
+                sc.advance(rng.choice([300, 1200]))
+                sc.deliver(s.recs(rng.choice(["S", "SA"])), 2)
+        if mode == "addr-bye":
+            sc.advance(rng.choice([500, 1500]))
+            sc.deliver(s.recs("A", ttl0=True), 2)          # address-only goodbye, PTR/SRV stay live
+            if rng.random() < 0.4:
+                sc.advance(rng.choice([400, 2500]))
+                sc.deliver(s.recs("A"), 2)
         return sc.finish(rng.choice([3000, s.ttl_a * 1000 + 3000]))
-    if which == "two-types":
-        sc = Scenario(rng, hid, True, [TY1, SUB1])
+    if which in ("two-types", "two-types-addr"):
+        # the instance is advertised under its type and a subtype PTR
+        br = rng.choice([[TY1, SUB1], [TY1, SUB1], [TY1], [SUB1]]) if which == "two-types" else [TY1, SUB1]
+        sc = Scenario(rng, hid, True, br)
         s = Svc(rng, rng.choice(INST_LABELS), TY1, rng.choice(HOSTS), 2, sub=SUB1)
-        s.ttl_ptr = 4500; s.ttl_srv = rng.choice([3, 5]); s.ttl_a = rng.choice([3, 5, 120])
+        s.ttl_ptr = 4500
+        if which == "two-types":
+            s.ttl_srv = rng.choice([3, 5]); s.ttl_a = 120          # the SRV runs out first: repaired
+        else:
+            s.ttl_srv = 120; s.ttl_a = rng.choice([3, 5])          # the address runs out first: residual finding
+            s.addrs = s.addrs[:1]
         sc.advance(100)
-        sc.deliver(s.recs(), 2)
-        return sc.finish(s.ttl_srv * 1000 + 3000)
+        sc.deliver(s.recs(), 2, v4=True)
+        return sc.finish(min(s.ttl_srv, s.ttl_a) * 1000 + 3000)
     if which == "ptr-variant":
         s = Svc(rng, rng.choice(INST_LABELS), TY1, rng.choice(HOSTS), 2)
         s.ttl_ptr = 4500; s.ttl_srv = 120; s.ttl_a = 120
